@@ -14,7 +14,7 @@ Not decided: equality of the produced values.
 import ast
 
 from ppsa import facts
-from ppsa.astutil import norm
+from ppsa.astutil import norm, dotted
 from ppsa.selftest import Variant, replace_once, in_function
 
 C = "pandapower.create"
@@ -225,6 +225,56 @@ def run(ctx):
     fs = ctx.repo.func(f"{C}._utils:_cost_existance_check")
     ors = [n for n in ast.walk(fs.node) if isinstance(n, ast.BoolOp) and isinstance(n.op, ast.Or)]
     ctx.ob(R5, f"{C}._utils::_cost_existance_check::disjunction", len(ors) >= 2, "single check combines poly/pwl with 'or'", fs.loc())
+    rule_series_align(ctx)
+
+
+def rule_series_align(ctx):
+    """batch creators hand every entry to _check_entry: a pandas Series is stored by label (DataFrame.assign aligns it with
+    the new element indices) only when ALL of its labels are new element indices, otherwise by position like a list"""
+    R = "SERIES-ALIGN"
+    ctx.rule(R, "in create._utils._check_entry the Series branch returns the positional values unless every label of the Series is "
+                "one of the new indices (not all(isin(val.index, index))): with a partial overlap label alignment would shift the "
+                "values and fill the rest with NaN, where the single creators take them in order; _set_multiple_entries passes "
+                "every entry through _check_entry")
+    fi = ctx.repo.func(f"{C}._utils:_check_entry")
+    found = 0
+    ALL = {"np_all", "all", "np.all", "numpy.all"}
+    ANY = {"np_any", "any", "np.any", "numpy.any"}
+    for node in ast.walk(fi.node):
+        if not isinstance(node, ast.If):
+            continue
+        if not any(isinstance(x, ast.Return) and isinstance(x.value, ast.Attribute) and x.value.attr == "values" for x in node.body):
+            continue
+        found += 1
+        terms = node.test.values if isinstance(node.test, ast.BoolOp) and isinstance(node.test.op, ast.And) else [node.test]
+        ok = False
+        why = norm(node.test, 90)
+        for t in terms:
+            neg = isinstance(t, ast.UnaryOp) and isinstance(t.op, ast.Not)
+            c = t.operand if neg else t
+            if not isinstance(c, ast.Call):
+                continue
+            fn = dotted(c.func) or (c.func.attr if isinstance(c.func, ast.Attribute) else "")
+            arg = c.args[0] if c.args else (c.func.value if isinstance(c.func, ast.Attribute) else None)
+            if arg is None or "isin" not in ast.unparse(arg):
+                continue
+            inv = isinstance(arg, ast.UnaryOp) and isinstance(arg.op, ast.Invert)
+            last = fn.split(".")[-1]
+            is_all = fn in ALL or last == "all"
+            is_any = fn in ANY or last == "any"
+            # not all(isin)  |  any(~isin)
+            ok = (neg and is_all and not inv) or ((not neg) and is_any and inv)
+        ctx.ob(R, f"{C}._utils::_check_entry::series-positional", ok,
+               "a Series is kept label-aligned only when all its labels are new indices" if ok else
+               f"`if {why}` decides whether a Series is taken by position: a Series whose labels overlap the new indices only "
+               "partly is then aligned by label (values shifted, NaN elsewhere) while the single creators take its values in order",
+               fi.loc(node))
+    if not found:
+        ctx.fail("_check_entry: the branch returning val.values was not found")
+    fs = ctx.repo.func(f"{C}._utils:_set_multiple_entries")
+    txt = ast.unparse(fs.node)
+    ctx.ob(R, f"{C}._utils::_set_multiple_entries::all-entries-checked", "_check_entry(v, index) for k, v in entries.items()" in txt,
+           "every entry passes _check_entry", fs.loc())
 
 
 def variants(repo):
@@ -240,5 +290,7 @@ def variants(repo):
         V("batch lines drop zero sequence", l, in_function("create_lines", lambda s: s.replace('            for param in ("r0_ohm_per_km", "x0_ohm_per_km", "c0_nf_per_km"):\n                entries[param] = lineparam[param]\n', '            pass\n', 1)), "create_lines::x0_ohm_per_km"),
         V("batch dc lines drop alpha", l, in_function("create_lines_dc", lambda s: s.replace('        if "alpha" in net.line.columns and "alpha" in lineparam:\n            entries["alpha"] = lineparam["alpha"]\n', '', 1)), "create_lines_dc::alpha"),
         V("pwl power_type filter without guard", u, in_function("_costs_existance_check", replace_once("        if isinstance(power_type, str):\n            pwl_exist &= (net.pwl_cost.power_type == power_type).values", "        pwl_exist &= (net.pwl_cost.power_type == power_type).values")), "power-type-filter"),
+        V("series kept by label on partial overlap", u, replace_once("not np_all(isin(val.index, index))", "not np_any(isin(val.index, index))"), "SERIES-ALIGN"),
+        V("twin: any label outside", u, replace_once("not np_all(isin(val.index, index))", "np_any(~isin(val.index, index))"), None),
         V("cost pred and", u, in_function("_costs_existance_check", replace_once("return sum(poly_exist) + sum(pwl_exist)", "return sum(poly_exist) & sum(pwl_exist)")), "COST-PRED"),
     ]
